@@ -188,10 +188,11 @@ impl narwhal_modulator::Modulator for ScriptedModulator {
     {
       let e = &r.event;
       let what = format!(
-        "event {} {} {}",
+        "event {} {} {} owner={}",
         e.kind,
         e.channel.as_ref().map(|c| c.to_string()).unwrap_or_default(),
-        e.nid.as_ref().map(|c| c.to_string()).unwrap_or_default()
+        e.nid.as_ref().map(|c| c.to_string()).unwrap_or_default(),
+        e.owner.unwrap_or(false)
       );
       if !self.gate(what).await {
         anyhow::bail!("modulator call failed (latency script)");
